@@ -227,6 +227,7 @@ var c15before = []string{
 	`SELECT * FROM /a"b/`, `SELECT a FROM m WHERE h =~ /it's/ AND b = 'x'`, `SELECT a / b, x::field / 2, (a) / 2, true / 2 FROM m WHERE c = '/' AND d = "/"`,
 	`SELECT a FROM m WHERE h !~ /a\/'b/`, `SELECT /x"/, mean(/y'/) FROM db.rp./'/ GROUP BY /"/`, `SHOW TAG VALUES WITH KEY =~ /'/`,
 	`SELECT a FROM m WHERE s = 'with password \'' AND "set password for" = 1 -- '` + "\n",
+	`SELECT * / 2 FROM m WHERE x = 'a/b'`, `SELECT mean(*) / 3 FROM m WHERE x = '/'`, `SELECT * FROM m WHERE x =~ /\\/'/`,
 	// letters whose lower-case form has another length in UTF-8 (offsets computed on a folded copy go wrong)
 	"SELECT a FROM m WHERE s = '\u212a\u212a\u212a\u212a' /* \u0130\u0130\u023a\u023e */",
 }
@@ -506,6 +507,31 @@ func c15checkUnchanged(t string) []ev.Finding {
 	if got := influxql.Sanitize(t); got != t {
 		return []ev.Finding{{Sig: "sanitize:alters-text-without-password-clause", Witness: t, Detail: fmt.Sprintf("Sanitize = %q", got), Case: map[string]string{"text": t}, Rank: len(t)}}
 	}
+	// followed by a password statement in the same text: whatever the statement in front contains (regex literals
+	// with quotes, divisions, wildcards, casts, strings with slashes), the literal behind it is redacted and nothing
+	// else changes
+	for _, tail := range []string{"; SET PASSWORD FOR u0 = 'zq'", ";\nCREATE USER u0 WITH PASSWORD 'z/q' WITH ALL PRIVILEGES"} {
+		full := t + tail
+		q, err := influxql.ParseQuery(full)
+		if err != nil || len(q.Statements) < 2 {
+			continue
+		}
+		switch q.Statements[len(q.Statements)-1].(type) {
+		case *influxql.SetPasswordUserStatement, *influxql.CreateUserStatement:
+		default:
+			continue // the tail was swallowed by a comment or a literal of the statement in front: not a case
+		}
+		i := strings.LastIndex(full, "'z")
+		j := strings.LastIndex(full, "q'") + 2
+		want := full[:i] + c15marker() + full[j:]
+		if got := influxql.Sanitize(full); got != want {
+			sig := "sanitize:not-redacted-after-another-statement"
+			if !strings.ContainsAny(got[len(t):], "zq") {
+				sig = "sanitize:other-text-altered-after-another-statement"
+			}
+			return []ev.Finding{{Sig: sig, Witness: full, Detail: fmt.Sprintf("Sanitize = %q, want %q", got, want), Case: map[string]string{"text": t}, Rank: len(full)}}
+		}
+	}
 	return nil
 }
 
@@ -555,9 +581,8 @@ func c15run(r *ev.Run) {
 	}
 	// texts without a password clause come back identical
 	texts := append([]string{}, c15unchanged...)
-	ex2 := &xplore.Explorer{Bounds: []int{1, 0, 0}, Workers: r.Workers, Deadline: deadlineFor(r.Tier), Body: func(c *xplore.Ctx) {
+	ex2 := &xplore.Explorer{Bounds: []int{2, 0, 1}, Workers: r.Workers, Deadline: deadlineFor(r.Tier), Body: func(c *xplore.Ctx) {
 		g := gram.New(c)
-		g.NoValueAlts = true
 		spec := gram.Statement(g)
 		if g.InvalidWhy != "" || spec.Form == "CREATE USER" || spec.Form == "SET PASSWORD" {
 			return
